@@ -315,7 +315,7 @@ func runRandomOrderCase(e *env, rep *vfutil.Report, rng *rand.Rand, seed int64, 
 		}
 	}
 	// phase 2: observers (and writers) receive what the writers hold, in pieces
-	for round := 0; round < 6*len(all) && c.nViol == 0; round++ {
+	for round := 0; round < 12*len(all) && c.nViol == 0; round++ {
 		dst := all[rng.Intn(len(all))]
 		src := writers[rng.Intn(len(writers))]
 		if dst == src {
@@ -337,7 +337,24 @@ func runRandomOrderCase(e *env, rep *vfutil.Report, rng *rand.Rand, seed int64, 
 			continue
 		}
 		b := randBatch(missing, rng.Intn(3) == 0)
-		if rng.Intn(4) == 0 && len(held) > 0 { // some changes the receiver already has
+		if rng.Intn(2) == 0 {
+			// head-update style: one change whose parents the receiver already holds (so the trees
+			// pass through many multi-head states, one change at a time)
+			var ready []int
+			for _, k := range missing {
+				ok := true
+				for _, q := range c.uni[k].Prev {
+					ok = ok && have[c.idOf(q)]
+				}
+				if ok {
+					ready = append(ready, k)
+				}
+			}
+			if len(ready) > 0 {
+				b = []int{ready[rng.Intn(len(ready))]}
+			}
+		}
+		if rng.Intn(4) == 0 && len(held) > 0 && len(b) > 1 { // some changes the receiver already has
 			b = append(b, held[rng.Intn(len(held))])
 			rng.Shuffle(len(b), func(i, j int) { b[i], b[j] = b[j], b[i] })
 		}
@@ -437,7 +454,7 @@ func TestRandomOrder(t *testing.T) {
 		seed := base*1000003 + int64(i)
 		prng := rand.New(rand.NewSource(seed ^ 0x5eed)) // parameters; the case itself is a function of (seed, params)
 		p := randParams{Writers: 2 + prng.Intn(2), Observers: 3 + prng.Intn(2), Changes: 6 + prng.Intn(maxChanges-5),
-			PSnap: []float64{0.1, 0.2, 0.35}[prng.Intn(3)], PSync: 0.3, PNoPath: 0.2, PDup: 0.2, PReject: 0.3, History: 3}
+			PSnap: []float64{0.1, 0.2, 0.35}[prng.Intn(3)], PSync: 0.3, PNoPath: 0.2, PDup: 0.2, PReject: 0.5, History: 3}
 		runRandomOrderCase(e, rep, rand.New(rand.NewSource(seed)), seed, p, tw)
 		rep.Case(fmt.Sprintf("w%d-o%d-c%d-s%.2f", p.Writers, p.Observers, p.Changes, p.PSnap))
 		rep.AddReplayed(1)
